@@ -123,20 +123,20 @@ Print Assumptions C11_column_sequential_is_the_idle_case.
    of them re-opens this property even if no sampled case shows a difference.  Rewritten by tools/pin_shapes.py on a tree on which every check passes. *)
 From Connectome Require GlueCacheGen GlueGraphGen.
 Theorem C11_mirrored_functions_are_the_pinned_ones :
-  GlueCacheGen.shape_class_CacheToStorage = "bb02462476ebf5a3" /\
-  GlueCacheGen.shape_class_CacheToRam = "671471faaea3be32" /\
-  GlueCacheGen.shape_class_CacheToDisk = "ab13d5028a9842ed" /\
-  GlueCacheGen.shape_priv_normalize_disk_arguments = "8b4510643237a667" /\
-  GlueCacheGen.shape_priv_resolve_serializer = "37e132734e002621" /\
-  GlueCacheGen.shape_class_DynamicConnectLayer = "7ece76ebf623a344" /\
-  GlueCacheGen.shape_class_MemoryCache = "cfe8167a538c6fe4" /\
-  GlueCacheGen.shape_class_DiskCache = "71fb3386aa709b95" /\
-  GlueGraphGen.shape_class_Graph = "9b10ec592949c6f4" /\
-  GlueGraphGen.shape_evaluate = "2cfd3509723284f1" /\
-  GlueGraphGen.shape_compute_hash = "e8fe66bcf0ec3ecc" /\
-  GlueGraphGen.shape_class_GraphCompiler = "b1003ba6d768dee1" /\
-  GlueGraphGen.shape_find_dependencies = "98effd5d1564b846" /\
-  GlueGraphGen.shape_class_TreeNode = "f3a44e95e44d05b5".
+  GlueCacheGen.shape_class_CacheToStorage = "bb02462476ebf5a3"%string /\
+  GlueCacheGen.shape_class_CacheToRam = "671471faaea3be32"%string /\
+  GlueCacheGen.shape_class_CacheToDisk = "ab13d5028a9842ed"%string /\
+  GlueCacheGen.shape_priv_normalize_disk_arguments = "8b4510643237a667"%string /\
+  GlueCacheGen.shape_priv_resolve_serializer = "37e132734e002621"%string /\
+  GlueCacheGen.shape_class_DynamicConnectLayer = "7ece76ebf623a344"%string /\
+  GlueCacheGen.shape_class_MemoryCache = "cfe8167a538c6fe4"%string /\
+  GlueCacheGen.shape_class_DiskCache = "71fb3386aa709b95"%string /\
+  GlueGraphGen.shape_class_Graph = "9b10ec592949c6f4"%string /\
+  GlueGraphGen.shape_evaluate = "2cfd3509723284f1"%string /\
+  GlueGraphGen.shape_compute_hash = "e8fe66bcf0ec3ecc"%string /\
+  GlueGraphGen.shape_class_GraphCompiler = "b1003ba6d768dee1"%string /\
+  GlueGraphGen.shape_find_dependencies = "98effd5d1564b846"%string /\
+  GlueGraphGen.shape_class_TreeNode = "f3a44e95e44d05b5"%string.
 Proof. repeat split; reflexivity. Qed.
 Print Assumptions C11_mirrored_functions_are_the_pinned_ones.
 (* END PINNED FINGERPRINTS *)
